@@ -159,12 +159,15 @@ class HWorld(object):
                             unreadable="%s: %s" % (type(e).__name__, str(e)[:160]))
             try:
                 disk = self.ds_map(ds, points)
+                dlabels = {str(d): [repr(v) for v in ds[d].values.tolist()] for d in ds.dims}
             finally:
                 ds.close()
         mem = None
+        labels = None
         if self.h._full_ds is not None:
             mem = self.ds_map(self.h._full_ds, points)
-        return dict(listing=listing, exists=exists, disk=disk, mem=mem)
+            labels = {str(d): [repr(v) for v in self.h._full_ds[d].values.tolist()] for d in self.h._full_ds.dims}
+        return dict(listing=listing, exists=exists, disk=disk, mem=mem, labels=labels, dlabels=dlabels if exists else None)
 
     def observe_y(self, points):
         """(disk, mem) maps of the second output."""
@@ -306,6 +309,13 @@ def replay_h(case, variant, points):
                     p = bad[0]
                     return (label + ": on disk the point %r holds version %r, the policy sequence dictates %r (0 = no data)" % (
                         p, o["disk"][p], want_disk[p]), "disk_value", k, notes)
+            if (post["outcome"] == "conflict" and prev is not None and prev.get("labels") is not None and o.get("labels") is not None
+                    and any(set(o["labels"].get(d_, [])) - set(prev["labels"].get(d_, [])) - set((o.get("dlabels") or {}).get(d_, []))
+                            for d_ in o["labels"])):
+                # a refused harvest leaves memory as it was (or as the file is, when it re-read the file): no coordinate
+                # labels that neither memory nor the file had
+                return (label + ": the refused (conflicting) harvest changed the coordinates of Harvester.full_ds: %r -> %r" % (
+                    prev["labels"], o["labels"]), "mem_value", k, notes)
             if want_mem is None:
                 if o["mem"] is not None and ev["a"] == "session":
                     notes.append("fresh Harvester already has data in memory")
@@ -383,7 +393,7 @@ class SWorld(object):
         mixed = self.mixed = bool(variant.get("mixed_types"))
         nd_result = bool(variant.get("nd_result"))
 
-        def fn(a, b, k=3):
+        def fn(a, b, k=3, wts=None):
             if mixed and (isinstance(a, (bool, float, np.floating, str)) or not isinstance(b, (float, np.floating))):
                 return -1.0, -1.0      # a is drawn from ints, b from floats: each must arrive with its own type
             if nan_point and (a, b) == (2, 2):
@@ -393,7 +403,11 @@ class SWorld(object):
             return float(VER[0] * 1000 + 10 * a + b), float(a - b)
 
         self.fn = fn
-        self.runner = self.xyz.Runner(fn, var_names=["x", "d"], fn_args=("a", "b"), constants={"k": 3})
+        consts = {"k": 3}
+        self.seq_const = bool(variant.get("seq_const"))
+        if self.seq_const:
+            consts["wts"] = (0.25, 0.75)        # a constant that is a sequence: recorded whole in every row
+        self.runner = self.xyz.Runner(fn, var_names=["x", "d"], fn_args=("a", "b"), constants=consts)
         self.samplers = {}
         self.new_session(1)
         self.new_session(2)
@@ -418,6 +432,11 @@ class SWorld(object):
                 a, b = float(r["a"]), int(r["b"])
                 a = int(a) if a == int(a) else a
                 float(r["d"]), int(r["k"])
+                if self.seq_const:
+                    wv = r["wts"]
+                    wv = wv if isinstance(wv, str) else str(tuple(float(t) for t in wv))
+                    if wv.replace(" ", "") not in ("(0.25,0.75)", "[0.25,0.75]"):
+                        raise ValueError("constant column holds %r" % (r["wts"],))
             except Exception:  # noqa
                 # a row that does not even have the table's shape (a missing column, an array in a cell, text ...)
                 def _short(v):
